@@ -21,7 +21,7 @@ def run(ctx):
     r = tlc.model_check("MC_Attrs.tla", cfg, workers=2)
     design = [family.design_entry("MC_Attrs", "rules", r, "exhaustive over shapes 2..4 x depths: permutation / swap rules invert, flatten and split rules keep components", ["DesignOK"])]
     cases = []
-    n = 400 if ctx.quick else 6000
+    n = 1200 if ctx.quick else 8000
     for _ in range(n):
         depth = rng.choice([2, 3, 3, 4])          # depth 4: flattened ids / shapes with three and four components, unflattened level by level
         t = canonical_tree(rng, depth)
